@@ -119,13 +119,16 @@ func (rb *BaseIRI) relativizeIRI(v string) (string, bool) {
 		switch v[rb.resourceIndex] {
 		case '#':
 			// dropping query
-			return v[rb.directoryIndex:], true
+			if len(v) >= rb.directoryIndex {
+				return v[rb.directoryIndex:], true
+			}
 		case '?':
 			return v[rb.resourceIndex:], true
 		}
 	}
 
-	if len(v) >= rb.directoryIndex && rb.original[0:rb.directoryIndex] == v[:rb.directoryIndex] {
+	// the directory can be longer than the base itself: "http:/a/b" resolves "./" to "http:///a/"
+	if len(v) >= rb.directoryIndex && strings.HasPrefix(rb.original, v[:rb.directoryIndex]) {
 		rel := v[rb.directoryIndex:]
 
 		if len(rel) == 0 || rel[0] == '?' || rel[0] == '#' {
